@@ -60,4 +60,25 @@ theorem prod_cos_le_one (l : List ℝ) : |(l.map Real.cos).prod| ≤ 1 := by
     calc |Real.cos a| * |(t.map Real.cos).prod| ≤ 1 * 1 := mul_le_mul this ih (abs_nonneg _) (by norm_num)
       _ = 1 := by ring
 
+theorem sum_map_ge {β : Type} (l : List β) (f : β → ℝ) (c : ℝ) (h : ∀ p ∈ l, c ≤ f p) :
+    c * l.length ≤ (l.map f).sum := by
+  induction l with
+  | nil => simp
+  | cons a t ih =>
+    simp only [List.map_cons, List.sum_cons, List.length_cons]
+    have := h a (by simp); have := ih (fun p hp => h p (by simp [hp])); push_cast; linarith
+
+theorem sum_map_le' {β : Type} (l : List β) (f : β → ℝ) (c : ℝ) (h : ∀ p ∈ l, f p ≤ c) :
+    (l.map f).sum ≤ c * l.length := by
+  induction l with
+  | nil => simp
+  | cons a t ih =>
+    simp only [List.map_cons, List.sum_cons, List.length_cons]
+    have := h a (by simp); have := ih (fun p hp => h p (by simp [hp])); push_cast; linarith
+theorem sq_sub_ten_cos (a b : ℝ) : (-10 : ℝ) ≤ a ^ 2 - ((10 : ℕ) : ℝ) * Real.cos b := by
+  have := Real.cos_le_one b; have := sq_nonneg a; push_cast; linarith
+
+theorem sum_nonneg_of_mem (l : List ℝ) (h : ∀ v ∈ l, 0 ≤ v) : 0 ≤ l.sum := by
+  have := sum_map_nonneg l id (by simpa using h); simpa using this
+
 end C20L
